@@ -115,7 +115,7 @@ pub fn crash_summary(run: &mut Run, st: &Stats) {
 
 pub fn run(tier: &str) -> ! {
 	let mut run = Run::new("C02", tier, "fault_enumeration");
-	let budget = Budget::new(if tier == "thorough" { 5000.0 } else { 150.0 });
+	let budget = Budget::new(if tier == "thorough" { 1500.0 } else { 150.0 });
 	run.set("rule", json!("for every edge (state, event) of the graph search over histories x stage schedules x reopen, every file mutation of the event (log append, log sync, table/index/ref-count store, table flush, log truncate/delete, file creation and drop; recorded by libc interposition plus the mmap-store hook and mirrored in a shadow file system that is compared with the real files on every execution) is a crash point: the image 'files before that operation' (plus torn variants of the operation: byte prefixes of a write, 8-byte prefixes of a mapped store) is materialised, recovered with open, read back and compared with the states S_0..S_n after each prefix of the committed transactions; then one more transaction is committed, driven, and survives a clean reopen. Recovery is itself recorded and crashed at each of its operations (depth 2; 3 in thorough). distinct = images with distinct content"));
 	run.assumptions = vec![
 		"process-crash model: every completed write(2) and mapped store survives (power loss is C12)".into(),
